@@ -28,6 +28,8 @@ func init() {
 func ruleC15(c *Check) {
 	c.addressRoles("C15.9")
 	c.bindOwnerGuard("C15.3")
+	c.indexEntriesCarryNoRecord("C15.11")
+	c.genesisImportValidates("C15.12")
 	ents := map[string]*Entry{}
 	for _, e := range c.entries("C15.1") {
 		ents[e.Msg] = e
@@ -729,6 +731,8 @@ func ruleC17(c *Check) {
 	c.lookupsIndependentOfConfiguration("C17.10", qfns)
 	c.schemaNameNormalisation("C17.11", qfns)
 	c.answersNotCut("C17.12", qfns)
+	c.indexEntriesCarryNoRecord("C17.13")
+	c.notFoundAgreement("C17.14", grpc, legacy)
 	// C17.6 id length checks before point lookups by request id
 	for _, q := range append(append([]querySig{}, grpc...), legacy...) {
 		for _, e := range c.P.SummaryOf(q.fn).Effs {
@@ -1298,4 +1302,100 @@ func (c *Check) answersNotCut(rule string, entries []*Func) {
 	}
 	c.Sites += len(entries)
 	c.req(len(entries) >= 10, rule, "query-entries", token.NoPos, fmt.Sprintf("%d query entry functions scanned for slicing of record lists (%d found)", len(entries), n))
+}
+
+// indexEntriesCarryNoRecord (C17.13 / C15.11): the owner index and the owner-provider index locate records, they do not
+// duplicate them: the value stored under an index key is not the encoding of a binding. A copy kept in the index is
+// written when the binding is created and by nothing that changes the binding afterwards (update, disable, enable, refund,
+// slash), so a query answered from it serves the binding as it once was.
+func (c *Check) indexEntriesCarryNoRecord(rule string) {
+	n := 0
+	for _, f := range c.handFuncs("keeper") {
+		for _, e := range c.directEffects(f) {
+			if e.Kind != "store" || e.Op != "Set" || !(e.Family == "0x03" || e.Family == "0x05") || e.Val == nil {
+				continue
+			}
+			n++
+			carries := false
+			e.Val.Walk(func(t *Term) bool {
+				if strings.Contains(t.Op, "Marshal") {
+					for _, a := range t.A {
+						if structIn(a, "ServiceBinding") != nil || strings.Contains(a.String(), "ServiceBinding") {
+							carries = true
+						}
+					}
+				}
+				return true
+			})
+			c.req(!carries, rule, unitConstruct(f, "index-value:"+e.Family), e.Pos, "the value of an index entry is not an encoded binding: "+shortTerm(e.Val))
+		}
+	}
+	c.req(n >= 2, rule, "index-writers", token.NoPos, fmt.Sprintf("%d writes of owner-index entries", n))
+}
+
+// notFoundAgreement (C17.14): for a record that is not in the store the two query interfaces answer alike — both with an
+// error, or both with the empty record. For every gRPC method, some legacy route with the same read signature rejects on
+// "not found" for exactly the same record families (the families whose found-result, or nil stored value, is the cause of a
+// rejecting exit).
+func (c *Check) notFoundAgreement(rule string, grpc, legacy []querySig) {
+	causes := func(f *Func) string {
+		set := map[string]bool{}
+		for _, pa := range c.P.PathsOf(f) {
+			if pa.Exit != ExitRevert {
+				continue
+			}
+			var last *Event
+			for _, ev := range pa.Events {
+				if ev.Kind == EvFact {
+					last = ev
+				}
+			}
+			if last == nil {
+				continue
+			}
+			last.Fact.T.Walk(func(t *Term) bool {
+				t = stripConv(t)
+				if t.Op == "res" && len(t.A) == 2 && !t.A[0].IsAt("0") {
+					if g := c.P.FuncNamed(stripConv(t.A[1]).Op); g != nil && g.Body != nil {
+						if fam, _ := c.foundGetter(g); fam != "" {
+							set[fam] = true
+						}
+					}
+				}
+				return true
+			})
+		}
+		var ks []string
+		for k := range set {
+			ks = append(ks, k)
+		}
+		sort.Strings(ks)
+		return strings.Join(ks, ",")
+	}
+	n := 0
+	for _, g := range grpc {
+		var cands []querySig
+		for _, l := range legacy {
+			if l.sig == g.sig {
+				cands = append(cands, l)
+			}
+		}
+		if len(cands) == 0 {
+			continue
+		}
+		n++
+		gc := causes(g.fn)
+		ok := false
+		var got []string
+		for _, l := range cands {
+			lc := causes(l.fn)
+			got = append(got, l.name+":{"+lc+"}")
+			if lc == gc {
+				ok = true
+			}
+		}
+		c.req(ok, rule, "not-found:"+g.name, g.fn.Body.Pos(), "the gRPC method rejects on a missing record of families {"+gc+"}; its legacy counterpart rejects alike — "+strings.Join(got, " "))
+	}
+	c.Sites += n
+	c.req(n >= 8, rule, "not-found-pairs", token.NoPos, fmt.Sprintf("%d gRPC methods compared with their legacy routes", n))
 }
